@@ -61,6 +61,27 @@ def analyse(sym, info, src_tags, dst_tags, acc_tags=None, typed=False):
         i = u.insns[a]
         if (is_cond_jump(i.mn) or i.mn == 'jmp') and i.target is not None and i.target <= a and i.target in f.aset:
             heads.setdefault(i.target, []).append(a)
+    # expansions of the byte-granular memcpy.asm macros are taken as ONE load / store of SIZE bytes at their base pointer (tools/lanemacro.py decides that they are)
+    import lanemacro
+    macros = {m['first']: m for m in lanemacro.summaries(sym, info)}
+
+    def macro_addr(m):
+        st_ = L.IN.get(m['first'])
+        if st_ is None:
+            return None
+        S = {'r': dict(st_['r']), 'm': dict(st_['m'])}
+        fm = {1: m['base'][1]} if m['base'][1] else {}
+        for r1 in m['base'][0]:
+            fm = asmlin.add(fm, L.reg(S, r1))
+        return split(fm, lenreg)
+
+    def macro_tag(m):
+        for b in f.addrs:
+            if m['first'] <= b < m['exit']:
+                for x in acc.get(b, []):
+                    if x.addr[0] == 'P' and base_tag(x.addr) in src_tags + acc_tags + dst_tags:
+                        return base_tag(x.addr)
+        return None
     joinaddrs = {a for a, st_ in L.IN.items() if any(v == {('J', a, r): 1} for r, v in st_['r'].items())}
     IN = {f.entry: {}}
     work = [f.entry]
@@ -74,6 +95,18 @@ def analyse(sym, info, src_tags, dst_tags, acc_tags=None, typed=False):
         st = dict(IN[a])
         i = u.insns[a]
         mn, ops = i.mn, i.ops
+        succs = u.succ(f, a)
+        if a in macros:
+            m = macros[a]
+            sp, tg = macro_addr(m), macro_tag(m)
+            if sp is None or tg is None:
+                undecided.append(i)
+            elif m['kind'] == 'load':
+                st[m['vreg']] = frozenset([('D' if tg in acc_tags else 'S', sp[0], frozenset([sp[1]]))]) if tg in src_tags + acc_tags else frozenset()
+            elif tg in dst_tags:
+                stores[a] = (i, sp, st.get(m['vreg'], frozenset()))
+            mn, ops = 'nop', []
+            succs = [m['exit']]
         xs = acc.get(a, [])
         memop = next((o for o in ops if is_mem(o)), None)
         tag = base_tag(xs[0].addr) if xs and xs[0].addr[0] == 'P' else None
@@ -126,12 +159,12 @@ def analyse(sym, info, src_tags, dst_tags, acc_tags=None, typed=False):
                     st[r] = frozenset(o[:-1] if o[-1] == mark else o for o in st[r])
         lst = L.IN.get(a)
         lout = None
-        for s_ in u.succ(f, a):
+        for s_ in succs:
             out = st
             # registers that get a fresh join atom at s_: on this edge the atom equals the value the register has now, so origins whose offset is that value plus a
             # constant are re-expressed in terms of the atom (this is what relates "loaded at the cursor" before and after a join or a back edge)
             fresh = [r for r, v in L.IN.get(s_, {'r': {}})['r'].items() if v == {('J', s_, r): 1}]
-            if fresh and lst is not None:
+            if fresh and lst is not None and a not in macros:
                 if lout is None:
                     lout = {'r': dict(lst['r']), 'm': dict(lst['m'])}
                     L.step(i, lout)
